@@ -723,6 +723,12 @@ class Interp:
                 raise AnalysisError(self.rule, f"unresolved {base.m.name}.{attr}")
             return v
         if isinstance(base, ExtVal):
+            # integer constants of the platform modules are plain data (open flags, permission bits, errno codes)
+            if (base.dotted == "os" and attr.startswith(("O_", "SEEK_", "F_", "R_OK", "W_OK", "X_OK"))) or (base.dotted == "stat" and attr.startswith("S_")) or (base.dotted == "errno" and attr.isupper()):
+                import importlib
+                v = getattr(importlib.import_module(base.dotted), attr, _MISSING)
+                if isinstance(v, int):
+                    return v
             return ExtVal(f"{base.dotted}.{attr}")
         if isinstance(base, ClassVal):
             v = self.class_attr(base.ci, attr)
